@@ -1,4 +1,340 @@
 import Reduino.Fw.ListHeap
 /- helper lemmas for Props/C09.lean (individual Mathlib modules may be imported here) -/
 namespace Reduino.Lemmas.C09
+open Reduino.Fw.Heap
+
+abbrev Vars := List (String × LVal)
+
+/-- a list value is well formed w.r.t. the blocks: nullptr iff empty, else a live block of exactly its size -/
+def WF (bs : List Block) (l : LVal) : Prop :=
+  match l.data with
+  | none => l.size = 0
+  | some id => 0 < l.size ∧ ∃ b, bs[id]? = some b ∧ b.alive = true ∧ b.cells.length = l.size
+
+def live (bs : List Block) : Nat := (bs.filter (·.alive)).length
+def cnt (vs : Vars) : Nat := (vs.filter (fun p => p.2.data.isSome)).length
+
+/-- the invariant of `Props/C09.lean` on the two components of the heap -/
+structure InvP (bs : List Block) (vs : Vars) : Prop where
+  nodup : (vs.map (·.1)).Nodup
+  wf : ∀ x l, (x, l) ∈ vs → WF bs l
+  nosh : ∀ x y lx ly id, (x, lx) ∈ vs → (y, ly) ∈ vs → lx.data = some id → ly.data = some id → x = y
+  live : live bs = cnt vs
+
+/-! ### variables -/
+
+theorem lookup_of_mem {vs : Vars} {x : String} {l : LVal} (hn : (vs.map (·.1)).Nodup) (hm : (x, l) ∈ vs) :
+    vs.lookup x = some l := by
+  induction vs with
+  | nil => cases hm
+  | cons p vs ih =>
+    obtain ⟨y, ly⟩ := p
+    simp only [List.map_cons, List.nodup_cons] at hn
+    rcases List.mem_cons.1 hm with h | h
+    · cases h; simp [List.lookup]
+    · have hne : x ≠ y := by rintro rfl; exact hn.1 (List.mem_map.2 ⟨_, h, rfl⟩)
+      have hb : (x == y) = false := by simpa using hne
+      simp [List.lookup, hb, ih hn.2 h]
+
+theorem lookup_eq {bs : List Block} {vs : Vars} {x : String} {l : LVal} (hn : (vs.map (·.1)).Nodup)
+    (hm : (x, l) ∈ vs) : lookup ⟨bs, vs⟩ x = l := by
+  simp [lookup, lookup_of_mem hn hm]
+
+theorem exists_of_declared {vs : Vars} {x : String} (h : x ∈ vs.map (·.1)) : ∃ l, (x, l) ∈ vs := by
+  obtain ⟨⟨y, l⟩, hm, rfl⟩ := List.mem_map.1 h
+  exact ⟨l, hm⟩
+
+theorem filter_ne_self {vs : Vars} {x : String} (h : x ∉ vs.map (·.1)) : vs.filter (·.1 ≠ x) = vs := by
+  rw [List.filter_eq_self]
+  intro p hp
+  have : p.1 ≠ x := by rintro rfl; exact h (List.mem_map.2 ⟨_, hp, rfl⟩)
+  simpa using this
+
+theorem not_mem_filter_ne (vs : Vars) (x : String) : x ∉ (vs.filter (·.1 ≠ x)).map (·.1) := by
+  intro h
+  obtain ⟨p, hp, rfl⟩ := List.mem_map.1 h
+  simpa using (List.mem_filter.1 hp).2
+
+theorem mem_of_mem_filter {vs : Vars} {x : String} {p : String × LVal} (h : p ∈ vs.filter (·.1 ≠ x)) :
+    p ∈ vs ∧ p.1 ≠ x := by
+  have := List.mem_filter.1 h
+  exact ⟨this.1, by simpa using this.2⟩
+
+theorem cnt_cons (y : String) (l : LVal) (vs : Vars) :
+    cnt ((y, l) :: vs) = (if l.data.isSome then 1 else 0) + cnt vs := by
+  unfold cnt
+  rw [List.filter_cons]
+  split <;> simp <;> omega
+
+theorem cnt_filter_ne {vs : Vars} {x : String} {l : LVal} (hn : (vs.map (·.1)).Nodup) (hm : (x, l) ∈ vs) :
+    cnt (vs.filter (·.1 ≠ x)) + (if l.data.isSome then 1 else 0) = cnt vs := by
+  induction vs with
+  | nil => cases hm
+  | cons p vs ih =>
+    obtain ⟨y, ly⟩ := p
+    simp only [List.map_cons, List.nodup_cons] at hn
+    rcases List.mem_cons.1 hm with h | h
+    · cases h
+      rw [List.filter_cons_of_neg (by simp), filter_ne_self hn.1, cnt_cons]
+      omega
+    · have hne : y ≠ x := by rintro rfl; exact hn.1 (List.mem_map.2 ⟨_, h, rfl⟩)
+      rw [List.filter_cons_of_pos (by simpa using hne), cnt_cons, cnt_cons]
+      have := ih hn.2 h
+      omega
+
+/-! ### blocks -/
+
+theorem live_append (bs : List Block) (c : List Int) : live (bs ++ [⟨true, c⟩]) = live bs + 1 := by
+  simp [live]
+
+theorem live_set_dead {bs : List Block} {id : Nat} {b : Block} (h : bs[id]? = some b) (ha : b.alive = true) :
+    live (bs.set id { b with alive := false }) + 1 = live bs := by
+  induction bs generalizing id with
+  | nil => simp at h
+  | cons a bs ih =>
+    cases id with
+    | zero =>
+      simp only [List.getElem?_cons_zero, Option.some.injEq] at h
+      subst h
+      simp [live, ha]
+    | succ n =>
+      simp only [List.getElem?_cons_succ] at h
+      have := ih h
+      simp only [live, List.set_cons_succ, List.filter_cons] at this ⊢
+      split
+      · simp only [List.length_cons]; omega
+      · omega
+
+theorem lt_of_getElem? {bs : List Block} {id : Nat} {b : Block} (h : bs[id]? = some b) : id < bs.length := by
+  obtain ⟨h, _⟩ := List.getElem?_eq_some_iff.1 h
+  exact h
+
+/-- `free` of a valid pointer: explicit result, and it commutes with a later allocation -/
+theorem free_append {bs bs1 : List Block} {vs vs1 : Vars} {p : Option Nat} (nb : Block)
+    (h : free ⟨bs, vs⟩ p = .ok ⟨bs1, vs1⟩) :
+    free ⟨bs ++ [nb], vs⟩ p = .ok ⟨bs1 ++ [nb], vs1⟩ ∧ bs1.length = bs.length := by
+  cases p with
+  | none =>
+    simp only [free, Except.ok.injEq, Heap.mk.injEq] at h ⊢
+    obtain ⟨rfl, rfl⟩ := h
+    simp
+  | some id =>
+    simp only [free] at h ⊢
+    cases hb : bs[id]? with
+    | none => simp [hb] at h
+    | some b =>
+      have hlt := lt_of_getElem? hb
+      rw [hb] at h
+      rw [List.getElem?_append_left hlt, hb]
+      simp only at h ⊢
+      split at h
+      · simp only [Except.ok.injEq, Heap.mk.injEq] at h
+        obtain ⟨rfl, rfl⟩ := h
+        rename_i ha
+        simp [ha, List.set_append_left _ _ hlt]
+      · cases h
+
+theorem readAll_ok {bs : List Block} {vs : Vars} {l : LVal} (h : WF bs l) :
+    ∃ cells, readAll ⟨bs, vs⟩ l = .ok cells ∧ cells.length = l.size := by
+  unfold readAll
+  split
+  · rename_i h0; exact ⟨[], rfl, by simp [h0]⟩
+  · rename_i h0
+    unfold WF at h
+    cases hd : l.data with
+    | none => rw [hd] at h; exact absurd h h0
+    | some id =>
+      rw [hd] at h
+      obtain ⟨_, b, hb, ha, hl⟩ := h
+      simp only [hb, ha]
+      refine ⟨b.cells.take l.size, by simp [hl], by simp [hl]⟩
+
+/-! ### the three building blocks of every mutating helper -/
+
+/-- release `x`'s buffer and forget `x` -/
+theorem inv_free_drop {bs : List Block} {vs : Vars} {x : String} {lx : LVal} (hi : InvP bs vs) (hm : (x, lx) ∈ vs) :
+    ∃ bs1, free ⟨bs, vs⟩ lx.data = .ok ⟨bs1, vs⟩ ∧ InvP bs1 (vs.filter (·.1 ≠ x)) := by
+  have hnd : ((vs.filter (·.1 ≠ x)).map (·.1)).Nodup :=
+    hi.nodup.sublist (List.Sublist.map _ (List.filter_sublist))
+  have hc := cnt_filter_ne hi.nodup hm
+  have hwf := hi.wf x lx hm
+  unfold WF at hwf
+  cases hd : lx.data with
+  | none =>
+    refine ⟨bs, rfl, hnd, ?_, ?_, ?_⟩
+    · intro y l h; exact hi.wf y l (mem_of_mem_filter h).1
+    · intro y z ly lz id hy hz; exact hi.nosh y z ly lz id (mem_of_mem_filter hy).1 (mem_of_mem_filter hz).1
+    · rw [hd] at hc; simpa [hi.live] using hc.symm
+  | some id =>
+    rw [hd] at hwf hc
+    obtain ⟨_, b, hb, ha, _⟩ := hwf
+    refine ⟨bs.set id { b with alive := false }, by simp [free, hb, ha], hnd, ?_, ?_, ?_⟩
+    · intro y l h
+      obtain ⟨hy, hne⟩ := mem_of_mem_filter h
+      have := hi.wf y l hy
+      unfold WF at this ⊢
+      cases hdl : l.data with
+      | none => rw [hdl] at this; exact this
+      | some id' =>
+        rw [hdl] at this
+        have hne' : id ≠ id' := by
+          rintro rfl
+          exact hne (hi.nosh y x l lx id hy hm hdl hd)
+        simpa [List.getElem?_set_ne hne'] using this
+    · intro y z ly lz id hy hz; exact hi.nosh y z ly lz id (mem_of_mem_filter hy).1 (mem_of_mem_filter hz).1
+    · have := live_set_dead hb ha
+      have h2 := hi.live
+      simp only [Option.isSome_some, ↓reduceIte] at hc
+      omega
+
+/-- give the undeclared `x` a freshly allocated buffer -/
+theorem inv_add_some {bs : List Block} {vs : Vars} {x : String} {cells : List Int} {n : Nat} (hi : InvP bs vs)
+    (hx : x ∉ vs.map (·.1)) (hn : 0 < n) (hl : cells.length = n) :
+    InvP (bs ++ [⟨true, cells⟩]) ((x, ⟨some bs.length, n⟩) :: vs) := by
+  refine ⟨?_, ?_, ?_, ?_⟩
+  · simpa [List.nodup_cons] using ⟨by simpa using hx, hi.nodup⟩
+  · intro y l h
+    rcases List.mem_cons.1 h with h | h
+    · cases h
+      exact ⟨hn, ⟨true, cells⟩, by simp, rfl, hl⟩
+    · have := hi.wf y l h
+      unfold WF at this ⊢
+      cases hdl : l.data with
+      | none => rw [hdl] at this; exact this
+      | some id' =>
+        rw [hdl] at this
+        obtain ⟨h0, b, hb, hr⟩ := this
+        exact ⟨h0, b, by rw [List.getElem?_append_left (lt_of_getElem? hb)]; exact hb, hr⟩
+  · have key : ∀ y l, (y, l) ∈ vs → l.data ≠ some bs.length := by
+      intro y l h hd
+      have := hi.wf y l h
+      unfold WF at this
+      rw [hd] at this
+      obtain ⟨_, b, hb, _⟩ := this
+      exact absurd (lt_of_getElem? hb) (Nat.lt_irrefl _)
+    intro y z ly lz id hy hz hdy hdz
+    rcases List.mem_cons.1 hy with h1 | h1 <;> rcases List.mem_cons.1 hz with h2 | h2
+    · cases h1; cases h2; rfl
+    · cases h1; simp only at hdy; cases hdy; exact absurd hdz (key z lz h2)
+    · cases h2; simp only at hdz; cases hdz; exact absurd hdy (key y ly h1)
+    · exact hi.nosh y z ly lz id h1 h2 hdy hdz
+  · rw [live_append, cnt_cons, hi.live]; simp; omega
+
+/-- give the undeclared `x` the empty list -/
+theorem inv_add_none {bs : List Block} {vs : Vars} {x : String} (hi : InvP bs vs) (hx : x ∉ vs.map (·.1)) :
+    InvP bs ((x, ⟨none, 0⟩) :: vs) := by
+  refine ⟨?_, ?_, ?_, ?_⟩
+  · simpa [List.nodup_cons] using ⟨by simpa using hx, hi.nodup⟩
+  · intro y l h
+    rcases List.mem_cons.1 h with h | h
+    · cases h; simp [WF]
+    · exact hi.wf y l h
+  · intro y z ly lz id hy hz hdy hdz
+    rcases List.mem_cons.1 hy with h1 | h1 <;> rcases List.mem_cons.1 hz with h2 | h2
+    · cases h1; cases h2; rfl
+    · cases h1; simp at hdy
+    · cases h2; simp at hdz
+    · exact hi.nosh y z ly lz id h1 h2 hdy hdz
+  · rw [cnt_cons, hi.live]; simp
+
+/-! ### the steps of the owned discipline -/
+
+def InvH (h : Heap) : Prop := InvP h.blocks h.vars
+
+theorem inv_make_set {bs : List Block} {vs : Vars} {x : String} (cells : List Int)
+    (hi : InvP bs (vs.filter (·.1 ≠ x))) :
+    InvH (setVar (makeList ⟨bs, vs⟩ cells).1 x (makeList ⟨bs, vs⟩ cells).2) := by
+  unfold InvH makeList
+  by_cases hc : cells.isEmpty = true
+  · simp only [hc, if_true, setVar]
+    exact inv_add_none hi (not_mem_filter_ne vs x)
+  · simp only [hc, alloc, setVar]
+    refine inv_add_some hi (not_mem_filter_ne vs x) ?_ rfl
+    cases cells with
+    | nil => simp at hc
+    | cons a t => simp
+
+theorem step_declMake {bs : List Block} {vs : Vars} (x : String) (vals : List Int) (hi : InvP bs vs)
+    (hx : x ∉ vs.map (·.1)) : ∃ o, step ⟨bs, vs⟩ (.declMake x vals) = .ok o ∧ InvH o.heap := by
+  refine ⟨⟨setVar (makeList ⟨bs, vs⟩ vals).1 x (makeList ⟨bs, vs⟩ vals).2, none⟩, rfl, ?_⟩
+  apply inv_make_set
+  rw [filter_ne_self hx]; exact hi
+
+theorem step_assignVar {bs : List Block} {vs : Vars} (x y : String) (hi : InvP bs vs)
+    (hx : x ∈ vs.map (·.1)) (hy : y ∈ vs.map (·.1)) :
+    ∃ o, step ⟨bs, vs⟩ (.assignVar x y) = .ok o ∧ InvH o.heap := by
+  by_cases hxy : x = y
+  · exact ⟨⟨⟨bs, vs⟩, none⟩, by simp [step, hxy], hi⟩
+  · obtain ⟨lx, hmx⟩ := exists_of_declared hx
+    obtain ⟨ly, hmy⟩ := exists_of_declared hy
+    obtain ⟨bs1, hf, hi1⟩ := inv_free_drop hi hmx
+    have hmy1 : (y, ly) ∈ vs.filter (·.1 ≠ x) :=
+      List.mem_filter.2 ⟨hmy, by simpa using Ne.symm hxy⟩
+    obtain ⟨cells, hr, _⟩ := readAll_ok (vs := vs) (hi1.wf y ly hmy1)
+    refine ⟨⟨setVar (makeList ⟨bs1, vs⟩ cells).1 x (makeList ⟨bs1, vs⟩ cells).2, none⟩, ?_,
+      inv_make_set cells hi1⟩
+    simp only [step, hxy, if_false, assign, lookup_eq hi.nodup hmx, lookup_eq hi.nodup hmy, hf, bind,
+      Except.bind, hr, pure, Except.pure]
+
+theorem step_append {bs : List Block} {vs : Vars} (x : String) (v : Int) (hi : InvP bs vs)
+    (hx : x ∈ vs.map (·.1)) : ∃ o, step ⟨bs, vs⟩ (.append x v) = .ok o ∧ InvH o.heap := by
+  obtain ⟨lx, hmx⟩ := exists_of_declared hx
+  obtain ⟨cells, hr, hl⟩ := readAll_ok (vs := vs) (hi.wf x lx hmx)
+  obtain ⟨bs1, hf, hi1⟩ := inv_free_drop hi hmx
+  obtain ⟨hf', hlen⟩ := free_append ⟨true, cells ++ [v]⟩ hf
+  refine ⟨⟨⟨bs1 ++ [⟨true, cells ++ [v]⟩], (x, ⟨some bs.length, lx.size + 1⟩) :: vs.filter (·.1 ≠ x)⟩, none⟩,
+    ?_, ?_⟩
+  · simp only [step, lookup_eq hi.nodup hmx, hr, bind, Except.bind, alloc, hf', pure, Except.pure, setVar]
+  · unfold InvH
+    rw [← hlen]
+    exact inv_add_some hi1 (not_mem_filter_ne vs x) (by omega) (by simp [hl])
+
+theorem step_remove {bs : List Block} {vs : Vars} (x : String) (v : Int) (hi : InvP bs vs)
+    (hx : x ∈ vs.map (·.1)) : ∃ o, step ⟨bs, vs⟩ (.remove x v) = .ok o ∧ InvH o.heap := by
+  obtain ⟨lx, hmx⟩ := exists_of_declared hx
+  by_cases h0 : lx.size = 0
+  · exact ⟨⟨⟨bs, vs⟩, none⟩, by simp [step, lookup_eq hi.nodup hmx, h0, pure, Except.pure], hi⟩
+  obtain ⟨cells, hr, hl⟩ := readAll_ok (vs := vs) (hi.wf x lx hmx)
+  cases hk : cells.findIdx? (· = v) with
+  | none =>
+    exact ⟨⟨⟨bs, vs⟩, none⟩,
+      by simp only [step, lookup_eq hi.nodup hmx, h0, if_false, hr, bind, Except.bind, hk, pure, Except.pure], hi⟩
+  | some k =>
+    have hklt : k < cells.length := by
+      have := List.findIdx?_eq_some_iff_findIdx_eq.1 hk
+      exact this.1
+    obtain ⟨bs1, hf, hi1⟩ := inv_free_drop hi hmx
+    by_cases h1 : lx.size > 1
+    · obtain ⟨hf', hlen⟩ := free_append ⟨true, cells.eraseIdx k⟩ hf
+      refine ⟨⟨⟨bs1 ++ [⟨true, cells.eraseIdx k⟩],
+        (x, ⟨some bs.length, lx.size - 1⟩) :: vs.filter (·.1 ≠ x)⟩, none⟩, ?_, ?_⟩
+      · simp only [step, lookup_eq hi.nodup hmx, h0, if_false, hr, bind, Except.bind, hk, h1, if_true, alloc, hf',
+          pure, Except.pure, setVar]
+      · unfold InvH
+        rw [← hlen]
+        refine inv_add_some hi1 (not_mem_filter_ne vs x) (by omega) ?_
+        rw [List.length_eraseIdx, if_pos hklt]; omega
+    · refine ⟨⟨⟨bs1, (x, ⟨none, 0⟩) :: vs.filter (·.1 ≠ x)⟩, none⟩, ?_, ?_⟩
+      · simp only [step, lookup_eq hi.nodup hmx, h0, if_false, hr, bind, Except.bind, hk, h1, hf,
+          pure, Except.pure, setVar]
+      · exact inv_add_none hi1 (not_mem_filter_ne vs x)
+
+theorem step_get {bs : List Block} {vs : Vars} (x : String) (i : Int) (hi : InvP bs vs)
+    (hx : x ∈ vs.map (·.1))
+    (hlo : -(Int.ofNat (lookup ⟨bs, vs⟩ x).size) ≤ i) (hhi : i < Int.ofNat (lookup ⟨bs, vs⟩ x).size) :
+    ∃ c, step ⟨bs, vs⟩ (.get x i) = .ok ⟨⟨bs, vs⟩, some c⟩ := by
+  obtain ⟨lx, hmx⟩ := exists_of_declared hx
+  rw [lookup_eq hi.nodup hmx] at hlo hhi
+  obtain ⟨cells, hr, hl⟩ := readAll_ok (vs := vs) (hi.wf x lx hmx)
+  have hb : ¬ ((if i < 0 then i + Int.ofNat lx.size else i) < 0 ∨
+      (if i < 0 then i + Int.ofNat lx.size else i) ≥ Int.ofNat lx.size) := by
+    simp only [Int.ofNat_eq_natCast] at hlo hhi ⊢
+    split <;> omega
+  have hlt : (if i < 0 then i + Int.ofNat lx.size else i).toNat < cells.length := by
+    simp only [Int.ofNat_eq_natCast] at hlo hhi ⊢
+    split <;> omega
+  refine ⟨cells[(if i < 0 then i + Int.ofNat lx.size else i).toNat], ?_⟩
+  simp only [step, lookup_eq hi.nodup hmx, hb, if_false, hr, bind, Except.bind, pure, Except.pure,
+    List.getElem?_eq_getElem hlt]
+
 end Reduino.Lemmas.C09
